@@ -9,7 +9,8 @@ CITER = {"list": list, "reversed": lambda cs: list(reversed(cs)), "dropfirst": l
 
 def build(t, vals, parent=None):
     lbl, cs = t
-    n = AnyNode(parent=parent, lbl=lbl, val=vals[str(lbl)])
+    import implutil
+    n = implutil.adv(AnyNode)(parent=parent, lbl=lbl, val=vals[str(lbl)])
     for c in cs:
         build(c, vals, n)
     return n
